@@ -19,6 +19,7 @@ func LoadDatabaseFromStream$1
 // or cannot be read completely, quoting the first malformed line
 func LoadDatabaseFromStream returns (db, err)
   props C08 C09 C10 C01
+  requires @stream dbStream != nil
   calluse ParseStreamCallback#1 loaddb
   modifies ghost(cbLen, cbErr, cbNode, cbStop, cbRet, cbLineNo, cbLine, cbHeader, cbElems, cbNElems, scRd, scPos, privLo, evOf)
   let rd := payload(dbStream)
@@ -128,7 +129,7 @@ func WalkNodesInStream$1
 func WalkNodesInStream returns (err)
   props C08 C09 C10
   calluse ParseStreamCallback#1 walk
-  requires @reporter RepInv(r) && (filter == nil || *filter != nil)
+  requires @reporter RepInv(r) && (filter == nil || *filter != nil) && logStream != nil
   modifies heap(shared.TreeNode), maps(string, *shared.TreeNode), heap(balance.balanceSingleReporter), arrays(float64), maps(string, shared.AccValues), maps(string, bool), maps(string, float64)
   modifies ghost(cbLen, cbErr, cbNode, cbStop, cbRet, cbLineNo, cbLine, cbHeader, cbElems, cbNElems, scRd, scPos, privLo, evOf, accKey, accP, accN, accH, bufSticky, sinkFailed, sinkPend, prLen, prSink, prArg, prArgs, csvLen, csvW, csvN, csvRow, tnodes, tdepth, tmax, tmapOf, jlen)
   let B := RepBuf(r)
@@ -164,7 +165,7 @@ type utils.ResolvedCallback(nl) returns (err)
 // are checked (book-records), and the definition itself is listed as an assumption in the evidence.
 func WithResolvedDatabase returns (err)
   props C08 C09 C10 C17 C01
-  requires @cb cb != nil && TreeInv()
+  requires @cb cb != nil && TreeInv() && dbStream != nil
   funcparam cb utils.ResolvedCallback
   calluse Resolve#1 any
   modifies *
@@ -195,12 +196,12 @@ func WalkWithReporter$1 returns (err)
   refines utils.ResolvedCallback
   dyncall 1 utils.ReporterCallback
   modifies *
-  captured rpCb != nil && rpc.Output != nil && !typeis(rpc.Output, "*bufio.Writer") && !typeis(rpc.Output, "*encoding/csv.Writer")
+  captured logStream != nil && rpCb != nil && rpc.Output != nil && !typeis(rpc.Output, "*bufio.Writer") && !typeis(rpc.Output, "*encoding/csv.Writer")
   defines CbOut(self) == payload(rpc.Output) && CbLog(self) == payload(logStream) && CbCC(self) == pc.CommentChar
 
 func WalkWithReporter returns (err)
   props C08 C09 C10 C17
-  requires @sink rpCb != nil && rpc.Output != nil && !typeis(rpc.Output, "*bufio.Writer") && !typeis(rpc.Output, "*encoding/csv.Writer") && TreeInv()
+  requires @sink logStream != nil && dbStream != nil && rpCb != nil && rpc.Output != nil && !typeis(rpc.Output, "*bufio.Writer") && !typeis(rpc.Output, "*encoding/csv.Writer") && TreeInv()
   funcparam rpCb utils.ReporterCallback
   modifies *
   modifies ghost(cbLen, cbErr, cbNode, cbStop, cbRet, cbLineNo, cbLine, cbHeader, cbElems, cbNElems, scRd, scPos, privLo, evOf, accKey, accP, accN, accH, bufSink, bufSticky, sinkFailed, sinkPend, prLen, prSink, prArg, prArgs, csvLen, csvW, csvN, csvRow, tnodes, tdepth, tmax, tmapOf, jlen)
@@ -213,4 +214,24 @@ func WalkWithReporter returns (err)
   ensures @log-unreadable [C10] err == nil ==> !RdFailed(lrd)
   ensures @log-malformed [C09] err == nil ==> (forall i int :: {RdLine(lrd, i)} 0 <= i && i < RdN(lrd) ==> !Malformed(lrd, i, cc))
   ensures @reports-loss [C17] err == nil ==> (sinkFailed[out] ==> old(sinkFailed[out])) && sinkPend[out] == 0
+
+// ---------------------------------------------------------------------------------------------
+// WithFileReaders (C10, C08): every named file is opened; a file that cannot be opened is an error and the
+// callback does not run; the callback is handed one non-nil reader per name, in order.
+// ---------------------------------------------------------------------------------------------
+type utils.ReadersCb(streams) returns (err)
+  requires @all-open forall i int :: {streams[i]} 0 <= i && i < len(streams) ==> streams[i] != nil
+  modifies *
+  modifies ghost(cbLen, cbErr, cbNode, cbStop, cbRet, cbLineNo, cbLine, cbHeader, cbElems, cbNElems, scRd, scPos, privLo, evOf, accKey, accP, accN, accH, bufSink, bufSticky, sinkFailed, sinkPend, prLen, prSink, prArg, prArgs, csvLen, csvW, csvN, csvRow, tnodes, tdepth, tmax, tmapOf, jlen, lastOpen)
+
+func NewCmdUtils$1 returns (err)
+  props C08 C10
+  requires @cb cb != nil
+  funcparam cb utils.ReadersCb
+  modifies *
+  modifies ghost(cbLen, cbErr, cbNode, cbStop, cbRet, cbLineNo, cbLine, cbHeader, cbElems, cbNElems, scRd, scPos, privLo, evOf, accKey, accP, accN, accH, bufSink, bufSticky, sinkFailed, sinkPend, prLen, prSink, prArg, prArgs, csvLen, csvW, csvN, csvRow, tnodes, tdepth, tmax, tmapOf, jlen, lastOpen)
+  loop 1 {
+    invariant @opened len(result) == len(fileNames) && fresh(arr(result)) && fileNames == old(fileNames) && cb == old(cb)
+    invariant @non-nil forall j int :: {result[j]} 0 <= j && j < #i ==> result[j] != nil
+  }
 @*/
